@@ -5,6 +5,8 @@ Reference builder vs. the real dump/dumps/loads over the enumerated product
 method x params x rpcid x version x flags x Config, plus random deep params.
 """
 
+import collections
+import decimal
 import itertools
 import json
 import random
@@ -120,6 +122,11 @@ def judge(ctx, st, api, method, params, rpcid, version, mresp, notify, cname, co
             return True
         kind = "notification" if notify else "request"
 
+    if kind == "error-response":
+        fdata0 = _FAULT_ARGS.get(id(params), (None, None, params.data))[2]
+        if _exotic(fdata0) and not (config is None or config.use_jsonclass):
+            ctx.count("unjudged:fault-data-needing-class-translation-with-translation-off")
+            return False
     # ---- a message must have been emitted
     if out[0] == "raise":
         ctx.violate("%s-%s:raised-%s" % (kind, ver, type(out[1]).__name__), case, {"raised": out[1]})
@@ -159,8 +166,11 @@ def judge(ctx, st, api, method, params, rpcid, version, mresp, notify, cname, co
         # what the harness passed to the Fault constructor (not what the object holds afterwards)
         fcode, fmsg, fdata = _FAULT_ARGS.get(id(params), (params.faultCode, params.faultString, params.data))
         err = {"code": fcode, "message": fmsg}
+        if _exotic(fdata) and not (config is None or config.use_jsonclass):
+            ctx.count("unjudged:fault-data-needing-class-translation-with-translation-off")
+            return False
         if fdata is not None:
-            err["data"] = gen.jn(fdata)
+            err["data"] = _norm_data(fdata) if _exotic(fdata) else gen.jn(fdata)
         exp["error"] = err
         exp["id"] = rpcid
         if v >= 2:
@@ -238,7 +248,10 @@ def one(ctx, st, jr, api, method, params, rpcid, version, mresp, notify, cname, 
             ctx.violate("loads-of-dumps-raised-%s" % type(ex).__name__, case, {"text": text, "error": ex})
             return
         ctx.count("monitor:loads(dumps(x))")
-        if not gen.teq(back, plain):
+        if "__jsonclass__" in text:
+            # (Fault data holding a Decimal: loads gives the Decimal back, plain JSON its descriptor)
+            ctx.count("unjudged:roundtrip-with-class-descriptor")
+        elif not gen.teq(back, plain):
             ctx.violate("roundtrip-loads-differs-from-json", case, {"loads": back, "json": plain})
             return
         out = ("ok", plain, text)
@@ -270,13 +283,40 @@ def _remember(fault, args):
     _FAULT_KEEP.append(fault)
 
 
+# Fault data in the forms a result may take as well: sets, container subclasses, Decimals (class translation on)
+EXOTIC_DATA = ({1}, frozenset(["a"]), {"k": {2.5}}, collections.OrderedDict([("o", 1)]), decimal.Decimal("1.5"),
+               [decimal.Decimal("-2")])
+
+
+def _exotic(x):
+    if isinstance(x, (set, frozenset, decimal.Decimal)):
+        return True
+    if isinstance(x, (list, tuple)):
+        return any(_exotic(v) for v in x)
+    if isinstance(x, dict):
+        return any(_exotic(v) for v in x.values())
+    return False
+
+
+def _norm_data(x):
+    """What the class translator makes of plain data: sets (of one element here) and tuples become lists,
+    a Decimal becomes its class descriptor."""
+    if isinstance(x, decimal.Decimal):
+        return {"__jsonclass__": ["decimal.Decimal", [str(x)]]}
+    if isinstance(x, (list, tuple, set, frozenset)):
+        return [_norm_data(v) for v in x]
+    if isinstance(x, dict):
+        return {k: _norm_data(v) for k, v in x.items()}
+    return x
+
+
 def faults():
     import jsonrpclib
     import jsonrpclib.config
     out = []
     for code in (-32700, -32600, -32000, 0, 1, -1, 500, 2 ** 40, 1.5):
         for msg in ("m", "", "é\nx"):
-            for data in (None, 0, "", [], {}, False, 0.0, (), "d", {"k": [1, (2,)]}, [None]):
+            for data in (None, 0, "", [], {}, False, 0.0, (), "d", {"k": [1, (2,)]}, [None]) + EXOTIC_DATA:
                 for cfg in (None, jsonrpclib.config.Config(use_jsonclass=False)):
                     f = jsonrpclib.Fault(code, msg, data=data) if cfg is None else \
                         jsonrpclib.Fault(code, msg, data=data, config=cfg)
